@@ -4,6 +4,7 @@
   Python's `sql % args`); tie: `harness/engines/c30.py`.
 -/
 import PonyVerif.Lemmas.RawSql
+import PonyVerif.Model.RawScan
 namespace PonyVerif.Props.C30
 open PonyVerif.Model.RawSql
 
@@ -236,6 +237,137 @@ theorem C30_roundtrip_pyformat {V : Type} (ρ : List Char → V) (toks : List To
   · rw [C30_bound_in_order _ _ h]; rfl
   · rw [C30_adapt]; unfold spec; rw [if_neg h]
     exact roundtrip_py_aux ρ (exprsOf toks) toks 0 (by intro j e hj; simpa using hj)
+
+/-! ### the scanner: which token list a statement denotes (all strings) -/
+
+private theorem dropWhile_head {α : Type} (p : α → Bool) (l : List α) (a : α) (r : List α)
+    (h : l.dropWhile p = a :: r) : p a = false := by
+  have hne : l.dropWhile p ≠ [] := by rw [h]; simp
+  have := List.head_dropWhile_not p hne
+  simpa [h] using this
+
+private theorem cutSemi_render (e : List Char) :
+    (cutSemi e).1 ++ (if (cutSemi e).2 then [';'] else []) = e := by
+  unfold cutSemi
+  split
+  · rename_i h
+    have hne : e ≠ [] := by intro h0; rw [h0] at h; simp at h
+    have hl : e.getLast hne = ';' := by
+      have := List.getLast?_eq_some_getLast hne
+      rw [this] at h; exact Option.some.inj h
+    simpa [hl] using List.dropLast_concat_getLast hne
+  · simp
+
+private theorem map_ok {α β : Type} (x : Except ScanErr α) (f : α → β) (b : β) (h : x.map f = .ok b) :
+    ∃ a, x = .ok a ∧ b = f a := by
+  cases x with
+  | error e => simp [Except.map] at h
+  | ok a => exact ⟨a, rfl, by simpa [Except.map] using h.symm⟩
+
+private theorem scan_render (fuel : Nat) :
+    ∀ (s : List Char) (toks : List Tok), s.length < fuel → scan fuel s = .ok toks → render toks = s := by
+  induction fuel with
+  | zero => intro s toks h; omega
+  | succ n ih =>
+    intro s toks hlen h
+    have hsplit : s.takeWhile (· != '$') ++ s.dropWhile (· != '$') = s := List.takeWhile_append_dropWhile
+    simp only [scan] at h
+    cases hd : s.dropWhile (· != '$') with
+    | nil =>
+      rw [hd] at h hsplit
+      simp only [Except.ok.injEq] at h
+      subst h
+      simpa [render, renderTok] using hsplit
+    | cons d r1 =>
+      have hdol : d = '$' := by simpa using dropWhile_head _ s d r1 hd
+      rw [hd] at h hsplit
+      cases r1 with
+      | nil => simp at h
+      | cons c r =>
+        have hl : s.length = (s.takeWhile (· != '$')).length + (r.length + 2) := by
+          have := congrArg List.length hsplit
+          simp only [List.length_append, List.length_cons] at this
+          omega
+        simp only at h
+        by_cases hc : c = '$'
+        · simp only [hc, if_true] at h
+          obtain ⟨toks', h1, h2⟩ := map_ok _ _ _ h
+          have := ih r toks' (by omega) h1
+          subst h2
+          refine Eq.trans ?_ hsplit
+          rw [hdol, hc]
+          simp only [render, List.map_cons, renderTok, List.flatten_cons] at this ⊢
+          rw [this]; simp
+        · simp only [hc, if_false] at h
+          cases hp : parseExpr (c :: r) with
+          | none => simp [hp] at h
+          | some k =>
+            simp only [hp] at h
+            obtain ⟨toks', h1, h2⟩ := map_ok _ _ _ h
+            have hdl : (List.drop k (c :: r)).length < n := by
+              simp only [List.length_drop, List.length_cons]; omega
+            have := ih _ toks' hdl h1
+            subst h2
+            have hcs := cutSemi_render (List.take k (c :: r))
+            have htd := List.take_append_drop k (c :: r)
+            refine Eq.trans ?_ hsplit
+            rw [hdol]
+            simp only [render, List.map_cons, renderTok, List.flatten_cons] at this ⊢
+            rw [this]
+            simp only [List.cons_append]
+            congr 1
+            congr 1
+            rw [hcs, htd]
+
+/-- the scanner loses nothing and invents nothing: for EVERY statement the scanner accepts, the tokens it finds render
+    back to exactly that statement (every character is literal text, part of a `$$`, or part of a `$`-expression) -/
+theorem C30_scan_render (s : List Char) (toks : List Tok) (h : scanSql s = .ok toks) : render toks = s :=
+  scan_render (s.length + 1) s toks (by omega) h
+
+/-- string level: whenever `adapt_sql` accepts a statement `s`, its result is the declarative reading of a token list
+    that renders to `s` — for all statements and all five styles -/
+theorem C30_adapt_string (style : Style) (s : List Char) (a : Adapted) (h : adaptString style s = .ok a) :
+    ∃ toks, render toks = s ∧ a = spec style toks := by
+  unfold adaptString at h
+  obtain ⟨toks, h1, h2⟩ := map_ok _ _ _ h
+  exact ⟨toks, C30_scan_render s toks h1, by rw [h2, C30_adapt]⟩
+
+private theorem scanRaw_agrees (fuel : Nat) :
+    ∀ s : List Char, scanRawLoop fuel s = (scan fuel s).map parseRaw := by
+  induction fuel with
+  | zero => intro s; rfl
+  | succ n ih =>
+    intro s
+    simp only [scanRawLoop, scan]
+    cases hd : s.dropWhile (· != '$') with
+    | nil => rfl
+    | cons d r1 =>
+      cases r1 with
+      | nil => rfl
+      | cons c r =>
+        simp only
+        by_cases hc : c = '$'
+        · simp only [hc, if_true, ih r]
+          cases scan n r <;> rfl
+        · simp only [hc, if_false]
+          cases hp : parseExpr (c :: r) with
+          | none => rfl
+          | some k =>
+            simp only [ih]
+            cases scan n (List.drop k (c :: r)) <;> rfl
+
+/-- one grammar, two implementations: for EVERY non-empty text the loop of `parse_raw_sql` (ormtypes.py) finds exactly the
+    tokens the loop of `adapt_sql` (core.py) finds — same text chunks, same `$$`, same expression texts in the same
+    order — and fails exactly when it fails -/
+theorem C30_two_scanners_agree (s : List Char) (h : s ≠ []) : scanRaw s = (scanSql s).map parseRaw := by
+  unfold scanRaw scanSql
+  have : s.isEmpty = false := by cases s <;> simp_all
+  simp only [this, Bool.false_eq_true, if_false]
+  exact scanRaw_agrees _ s
+
+example : scanSql ['a', '$', 'x', '.', 'y', ';', '$', '$', '$', '(', '\'', ')', '\'', ')'] =
+    .ok [.text ['a'], .expr ['x', '.', 'y'] true, .text [], .dollar, .text [], .expr ['(', '\'', ')', '\'', ')'] false, .text []] := by
+  rfl
 
 /-! ### cache transparency, for all histories -/
 
